@@ -1,5 +1,6 @@
 import JominiModel.Driver.Util
 import JominiModel.Model.TextTape
+import JominiModel.Spec.TextDocFull
 /-
 Ops of C01 (text tape), the text half of C06 (`wftext`) and the text-tape part of C19 (`tcut`).
 Formats mirror harness/src/show.rs (`text_tape`, `text_tape_offsets`) and harness/src/props/c01.rs.
@@ -74,7 +75,162 @@ def cutLine (d : Bytes) : String :=
     | .panic => "panic"
     | .outOfFuel => "out-of-fuel"
 
+/-! ### `spec_full`: documents of the full document type (Spec/TextDocFull.lean)
+
+prefix encoding, tokens separated by `,` (harness/src/props/c01.rs `FullB`): gaps / names are hex
+or `-`, scalars `u<hex>` / `q<hex>`, operators by name, lists end with `.` -/
+
+def pOp : String → Option Op
+  | "lt" => some .lt | "le" => some .le | "gt" => some .gt | "ge" => some .ge
+  | "ne" => some .ne | "ex" => some .exact | "eq" => some .eq | "xs" => some .exists_
+  | _ => none
+
+def pScal (s : String) : Option Scal :=
+  match s.toList with
+  | 'u' :: r => (parseHex (String.ofList r)).map fun b => ⟨false, b⟩
+  | 'q' :: r => (parseHex (String.ofList r)).map fun b => ⟨true, b⟩
+  | _ => none
+
+def pBool : String → Option Bool
+  | "0" => some false | "1" => some true | _ => none
+
+mutual
+partial def pV : List String → Option (FVal × List String)
+  | "S" :: g :: s :: r => do pure (.scal (← parseHex g) (← pScal s), r)
+  | "E" :: g :: gc :: r => do pure (.empty (← parseHex g) (← parseHex gc), r)
+  | "O" :: g :: g0 :: r => do
+    let (first, r) ← pFirst r
+    let (rest, r) ← pF r
+    match r with
+    | gc :: r => pure (.obj (← parseHex g) (← parseHex g0) first rest (← parseHex gc), r)
+    | _ => none
+  | "A" :: g :: g0 :: s0 :: r => do
+    let (rest, r) ← pVs r
+    match r with
+    | gc :: r => pure (.arrS (← parseHex g) (← parseHex g0) (← pScal s0) rest (← parseHex gc), r)
+    | _ => none
+  | "C" :: g :: r => do
+    let (first, r) ← pV r
+    let (rest, r) ← pVs r
+    match r with
+    | gc :: r => pure (.arrC (← parseHex g) first rest (← parseHex gc), r)
+    | _ => none
+  | "G" :: g :: b1 :: b2 :: r => do
+    let (v, r) ← pV r
+    pure (.ghostIn (← parseHex g) (← parseHex b1) (← parseHex b2) v, r)
+  | "M" :: g :: g0 :: r => do
+    let (first, r) ← pFirst r
+    let (rest, r) ← pF r
+    match r with
+    | gm :: m0 :: r => do
+      let (items, r) ← pI r
+      match r with
+      | gc :: r => pure (.mixed (← parseHex g) (← parseHex g0) first rest (← parseHex gm) (← pScal m0) items
+          (← parseHex gc), r)
+      | _ => none
+    | _ => none
+  | "X" :: g :: g0 :: s0 :: r => do
+    let (pre, r) ← pVs r
+    match r with
+    | gm :: m0 :: go :: o :: r => do
+      let (items, r) ← pI r
+      match r with
+      | gc :: r => pure (.arrSM (← parseHex g) (← parseHex g0) (← pScal s0) pre (← parseHex gm) (← pScal m0)
+          (← parseHex go) (← pOp o) items (← parseHex gc), r)
+      | _ => none
+    | _ => none
+  | "Y" :: g :: r => do
+    let (first, r) ← pV r
+    let (pre, r) ← pVs r
+    match r with
+    | gm :: m0 :: go :: o :: r => do
+      let (items, r) ← pI r
+      match r with
+      | gc :: r => pure (.arrCM (← parseHex g) first pre (← parseHex gm) (← pScal m0) (← parseHex go) (← pOp o)
+          items (← parseHex gc), r)
+      | _ => none
+    | _ => none
+  | _ => none
+partial def pFirst : List String → Option (FFirst × List String)
+  | "K" :: k :: g1 :: o :: r => do
+    let (v, r) ← pV r
+    pure (.kv (← pScal k) (← parseHex g1) (← pOp o) v, r)
+  | "F" :: r => do
+    let (f, r) ← pF r
+    pure (.flds f, r)
+  | _ => none
+partial def pF : List String → Option (FFields × List String)
+  | "." :: r => some (.nil, r)
+  | "c" :: g0 :: k :: g1 :: o :: r => do
+    let (v, r) ← pV r
+    let (rest, r) ← pF r
+    pure (.cons (← parseHex g0) (← pScal k) (← parseHex g1) (← pOp o) v rest, r)
+  | "i" :: g0 :: k :: r => do
+    let (v, r) ← pV r
+    let (rest, r) ← pF r
+    pure (.consImp (← parseHex g0) (← pScal k) v rest, r)
+  | "g" :: g :: gc :: r => do
+    let (rest, r) ← pF r
+    pure (.ghost (← parseHex g) (← parseHex gc) rest, r)
+  | "h" :: g0 :: k :: g1 :: o :: gh :: h :: r => do
+    let (body, r) ← pV r
+    let (rest, r) ← pF r
+    pure (.consHdr (← parseHex g0) (← pScal k) (← parseHex g1) (← pOp o) (← parseHex gh) (← pScal h) body rest, r)
+  | "p" :: g0 :: u :: name :: g1 :: val :: g2 :: r => do
+    let (rest, r) ← pF r
+    pure (.paramVal (← parseHex g0) (← pBool u) (← parseHex name) (← parseHex g1) (← pScal val) (← parseHex g2) rest, r)
+  | "o" :: g0 :: u :: name :: g1 :: k :: g2 :: o :: r => do
+    let (v, r) ← pV r
+    let (inner, r) ← pF r
+    match r with
+    | gc :: r => do
+      let (rest, r) ← pF r
+      pure (.paramObj (← parseHex g0) (← pBool u) (← parseHex name) (← parseHex g1) (← pScal k) (← parseHex g2)
+        (← pOp o) v inner (← parseHex gc) rest, r)
+    | _ => none
+  | "r" :: g0 :: u :: name :: g1 :: val :: g2 :: r => do
+    let (body, r) ← pV r
+    let (rest, r) ← pF r
+    pure (.paramHdr (← parseHex g0) (← pBool u) (← parseHex name) (← parseHex g1) (← pScal val) (← parseHex g2)
+      body rest, r)
+  | _ => none
+partial def pVs : List String → Option (FVals × List String)
+  | "." :: r => some (.nil, r)
+  | r => do
+    let (v, r) ← pV r
+    let (rest, r) ← pVs r
+    pure (.cons v rest, r)
+partial def pI : List String → Option (FItems × List String)
+  | "." :: r => some (.nil, r)
+  | "s" :: g :: s :: r => do
+    let (rest, r) ← pI r
+    pure (.scal (← parseHex g) (← pScal s) rest, r)
+  | "t" :: g :: o :: r => do
+    let (rest, r) ← pI r
+    pure (.op (← parseHex g) (← pOp o) rest, r)
+  | "v" :: r => do
+    let (v, r) ← pV r
+    let (rest, r) ← pI r
+    pure (.cont v rest, r)
+  | _ => none
+end
+
+def specFull (doc gt h : String) : Option String := do
+  let toks := (doc.splitOn ",")
+  let (fs, r) ← pF toks
+  if !r.isEmpty then none
+  let gt ← parseHex gt
+  let bytes ← parseHex h
+  let want := ftapeF fs 0 gt
+  let rendered := frenderF fs ++ gt
+  let model := parse bytes
+  let modelOk := match model with
+    | .ok t bom => t == want && bom == false
+    | _ => false
+  pure s!"ok {showTape (some bytes.length) want} bom:0 render:{if rendered == bytes then 1 else 0} model:{if modelOk then 1 else 0}"
+
 def handle : Handler
+  | ["spec_full", doc, gt, h] => specFull doc gt h
   | ["ttape", h] => (parseHex h).map fun d => tapeLine d false
   | ["ttapeoff", h] => (parseHex h).map fun d => tapeLine d true
   | ["tfaith", h, _] => (parseHex h).map fun d => tapeLine d false
